@@ -40,7 +40,7 @@ _AXIS_NAME_POSITION_PAIR_LIST = (
 )
 _ARGUMENT = rf"\({_AXIS_NAME_POSITION_PAIR_LIST}\)"
 _ARGUMENT_LIST = f"{_ARGUMENT}(?:,{_ARGUMENT})*"
-_SIGNATURE = f"^{_ARGUMENT_LIST}->{_ARGUMENT_LIST}$"
+_SIGNATURE = rf"^{_ARGUMENT_LIST}->{_ARGUMENT_LIST}\Z"
 
 
 def _split_names_and_positions(arg: str) -> Tuple[Tuple[str, ...], Tuple[str, ...]]:
